@@ -150,7 +150,38 @@ def run(tier, seed):
             add_v("order_diagnostics_reordered", "order_diagnostics_reordered|" + kind, "the same diagnostics are reported in a different order when the files are processed in a different order", {"files": files, "diagnostics": seqs})
         if len(samples) < 4 and len(files) > 1:
             samples.append({"files": sorted(files), "accepted": c0.accepted, "object_sha256": h0, "probe_objects": objs[:1]})
-    rep_out = {"evaluations": evals, "distinct_nontrivial": len(sigs), "violations": viol, "samples": samples, "counters": counters, "notes": [], "exhaustive": False}
+    # sanitizer part: a sample of the accepted programs (and one fixed program with a padded comptime struct) is compiled under
+    # valgrind memcheck with definedness tracking; object bytes that are uninitialised memory make the object depend on whatever
+    # was in that memory, even when the builds compared above happened to agree
+    fixed = {"main.capy": "S :: struct { a: u8, b: i64 };\nG :: comptime { S.{ a = 1, b = 2 } };\nmain :: () -> i32 {\n    i32.(G.b)\n}\n"}
+    acc = [files for idx, kind, files, runs, pipes in results if runs and runs[0][0].accepted and sum(len(t) for t in files.values()) < 4000
+           and (tier != "quick" or not any("#mod(" in t for t in files.values()))]
+    mc_jobs = [(0, fixed)] + [(k + 1, f) for k, f in enumerate(rng.sample(acc, min(2 if tier == "quick" else 40, len(acc))))]
+
+    def mc_one(job):
+        k, files = job
+        d = os.path.join(work, f"mc{k}")
+        c = R.compile_capy(d, files, cpu_s=900, mem_gb=0,
+                           wrap=["valgrind", "-q", "--leak-check=no", "--undef-value-errors=yes", "--num-callers=14", "--error-exitcode=0"])
+        shutil.rmtree(d, ignore_errors=True)
+        return files, c
+    n_mc = 0
+    for files, c in C.pmap(mc_one, mc_jobs):
+        if c.timed_out or c.cpu_exceeded:
+            inconc.append("memcheck build: watchdog")
+            continue
+        n_mc += 1
+        evals += 1
+        if "Syscall param write(buf) points to uninitialised byte(s)" in c.err and "object::write" in c.err:
+            feat = "has_comptime" if any("comptime" in t for t in files.values()) else "no_comptime"
+            add_v("uninit_object_bytes", "uninit_object_bytes|" + feat, "valgrind memcheck: the bytes written to the object file contain uninitialised memory "
+                  f"({feat}): the object is not a function of the sources alone", {"files": files, "memcheck": c.err[-1500:]})
+        for m in R.MEMCHECK_REPORT.finditer(c.err):
+            add_v("memcheck", "memcheck|" + m.group(1)[:60], f"valgrind memcheck: {m.group(1)} while compiling", {"files": files, "memcheck": c.err[-1500:]})
+            break
+    counters["memcheck_builds"] = n_mc
+    rep_out = {"evaluations": evals, "distinct_nontrivial": len(sigs), "violations": viol, "samples": samples, "counters": counters,
+               "notes": [f"{n_mc} builds under valgrind memcheck (definedness of the bytes written to the object file)"], "exhaustive": False}
     return C.finish("C21", tier, seed, t0, "exploration", rep_out, ASSUME, RULE, min_evals=50, inconclusive=inconc)
 
 
